@@ -688,7 +688,7 @@ def farkas_from_explanation(s, mod, nrows):
     return [int(x * den) for x in lam]
 
 
-def run_simplex(mod, rows, enc):
+def run_simplex(mod, rows, enc, limit=20):
     """(verdict, payload): ('sat', {var: Fraction}), ('unsat', multipliers or None), ('raise', name), ('timeout',).
     The verdict comes from the public behaviour (handle_assertion returns / raises UNSATException,
     AssertUpperException, AssertLowerException).  The Farkas multipliers are read from internals
@@ -714,7 +714,7 @@ def run_simplex(mod, rows, enc):
     except Exception:  # noqa
         pass
     try:
-        with time_limit(20):
+        with time_limit(limit):
             s.handle_assertion()
     except Timeout:
         return ("timeout",), s
@@ -755,13 +755,20 @@ def qvec(val, nv):
     return [int(x * den) for x in xs], den
 
 
-def check_simplex(ctx, simplex, systems, label):
+def check_simplex(ctx, simplex, systems, label, encs=None):
     rng = ctx.rng("simplex-enc-" + label)
     runs = []
     lines = []
-    for rows, shape in systems:
-        enc = choose_enc(rng, rows)
+    for k, (rows, shape) in enumerate(systems):
+        enc = encs[k] if encs is not None else choose_enc(rng, rows)
         res, s = run_simplex(simplex, rows, enc)
+        if res[0] == "timeout":
+            # "for every system" the procedure has to answer: confirm with a long limit, then it is a violation
+            res, s = run_simplex(simplex, rows, enc, limit=90)
+            if res[0] == "timeout":
+                key = rows_key(rows) + "/" + "".join("g" if e else "l" for e in enc)
+                report(ctx, "simplex:nontermination", key, "Simplex.handle_assertion() on %s (encoding %s) does not return within 90 s (check() keeps pivoting)"
+                       % (rows, key.split("/")[1]), {"kind": "simplex", "rows": rows, "enc": enc, "result": "timeout"})
         runs.append((rows, enc, res))
         nv = len(rows[0]) - 1
         if res[0] == "sat":
@@ -935,38 +942,97 @@ def check_simplex_model(ctx, simplex, systems, label):
 
 
 def run_bb(simplex, rows, enc):
+    """branch_and_bound on a fresh Simplex; also returns the variables find_not_int_var chose (the
+    oracle argument of the model), the full mapping it returned and the exceptions raised inside nodes."""
     s = simplex.Simplex()
     orig = simplex.deque
     simplex.deque = BudgetDeque
+    picks, excs = [], []
+    orig_find, orig_ha = simplex.Simplex.find_not_int_var, simplex.Simplex.handle_assertion
+
+    def find(self):
+        r = orig_find(self)
+        if r is not None:
+            picks.append(var_id(r[0]))
+        return r
+
+    def ha(self):
+        try:
+            return orig_ha(self)
+        except Exception as e:  # noqa
+            excs.append(type(e).__name__)
+            raise
+    simplex.Simplex.find_not_int_var, simplex.Simplex.handle_assertion = find, ha
+    info = {"picks": picks, "excs": excs}
     try:
         s.add_ineqs(*build_ineqs(simplex, rows, enc))
         r = simplex.branch_and_bound(s, [], [])
     except Exception as e:  # noqa
-        return ("raise", type(e).__name__)
+        return ("raise", type(e).__name__), info
     finally:
         simplex.deque = orig
+        simplex.Simplex.find_not_int_var, simplex.Simplex.handle_assertion = orig_find, orig_ha
+    info["nodes"] = BudgetDeque.last.pops
     if BudgetDeque.last.exhausted:
-        return ("gave-up",)
+        return ("gave-up",), info
     if isinstance(r, dict):
-        return ("sat", {int(v[1:]): Fraction(x) for v, x in r.items() if v.startswith("x")})
+        info["mapping"] = {var_id(v): Fraction(x) for v, x in r.items()}
+        return ("sat", {int(v[1:]): Fraction(x) for v, x in r.items() if v.startswith("x")}), info
     if isinstance(r, simplex.IntSimplexTree):
-        return ("unsat",)
-    return ("other", repr(r))
+        return ("unsat",), info
+    return ("other", repr(r)), info
 
 
 def check_bb(ctx, simplex, systems, label):
     rng = ctx.rng("bb-enc-" + label)
     runs = []
+    infos = []
     lines = []
     for rows, shape in systems:
         enc = choose_enc(rng, rows)
-        res = run_bb(simplex, rows, enc)
+        res, info = run_bb(simplex, rows, enc)
         runs.append((rows, enc, res))
+        infos.append(info)
+        for e in info["excs"]:
+            ctx.count("bb:node-exception:" + e)
+            if e not in ("UNSATException", "AssertUpperException", "AssertLowerException"):
+                # the bare `except:` would treat this node as infeasible: not covered by the model
+                ctx.count("bb:node-exception-not-modelled")
         if res[0] == "sat":
             nv = len(rows[0]) - 1
             ok = all(x.denominator == 1 for x in res[1].values())
             lines.append(sexp.dumps(["witness", rows, [int(res[1].get(i, 0)) for i in range(nv)] if ok else []]))
     out = ctx.lean_driver(EXE, lines) if lines else []
+    # correspondence with the model of the search loop (the variables the real run branched on are the oracle)
+    mlines = []
+    for (rows, enc, res), info in zip(runs, infos):
+        qs = []
+        for k, r in enumerate(rows):
+            if enc[k]:
+                qs.append(["ge", [[100 + i, c] for i, c in enumerate(r[:-1]) if c != 0], -r[-1]])
+            else:
+                qs.append(["le", [[100 + i, -c] for i, c in enumerate(r[:-1]) if c != 0], r[-1]])
+        mlines.append(sexp.dumps(["bb", SIMPLEX_FUEL, BudgetDeque.budget, info["picks"], qs]))
+    mout = ctx.lean_driver(EXE, mlines) if mlines else []
+    ndis = 0
+    for idx, ((rows, enc, res), info) in enumerate(zip(runs, infos)):
+        if mout is None or res[0] in ("raise", "other"):
+            continue
+        x = sexp.loads(mout[idx])
+        if x == "bad-op":
+            m = ("bad-op",)
+        else:
+            kind = x[0] if isinstance(x[0], str) else x[0][0]
+            m = ({"found": "sat", "none": "unsat", "gaveup": "gave-up"}.get(kind, kind), int(x[1]),
+                 {int(v): Fraction(q) for v, q in x[0][1]} if kind == "found" else None)
+        impl = (res[0], info.get("nodes"), info.get("mapping"))
+        ctx.count("bb-model:branchings", len(info["picks"]))
+        if m != impl:
+            ndis += 1
+            if ndis <= 3:
+                ctx.broken("correspondence:c16:bb", "rows=%s enc=%s picks=%s impl=%s model=%s" % (
+                    rows, "".join("g" if e else "l" for e in enc), info["picks"], impl[:2], m[:2]))
+                ctx.coverage["disagreements_checked"] += 1
     pos = 0
     for rows, enc, res in runs:
         nv = len(rows[0]) - 1
@@ -993,6 +1059,53 @@ def check_bb(ctx, simplex, systems, label):
             if z is True:
                 report(ctx, "bb:wrong-unsat", key, "branch_and_bound on %s (encoding %s) finds no integer solution but %s is one"
                        % (rows, key.split("/")[1], list(pt) if pt is not None else "Z3 finds one"), rp)
+
+
+# ------------------------------------------------------------------ simplex_strict: delta-rationals
+def check_delta(ctx, strict_mod, n):
+    """`Pair.__le__`, `binary_delta`, `multi_delta` of simplex_strict.py against the Lean model, and the
+    property itself on the implementation's answers: the delta returned is positive and every
+    comparison p1 <= p2 of the list holds for the rationals x + y*delta."""
+    rng = ctx.rng("delta")
+
+    def frac():
+        return Fraction(rng.randint(-6, 6), rng.choice([1, 1, 2, 3]))
+    cases, lines = [], []
+    for _ in range(n):
+        ps = []
+        for _ in range(rng.randint(0, 5)):
+            a, b = (frac(), frac()), (frac(), frac())
+            if rng.random() < 0.3:
+                b = (a[0], frac())                       # equal standard parts
+            if rng.random() < 0.15:
+                a, b = b, a
+            ps.append((a, b))
+        cases.append(ps)
+        lines.append(sexp.dumps(["delta", [[str(a[0]), str(a[1]), str(b[0]), str(b[1])] for a, b in ps]]))
+    out = ctx.lean_driver(EXE, lines) if lines else []
+    ndis = 0
+    for idx, ps in enumerate(cases):
+        pairs = [(strict_mod.Pair(*a), strict_mod.Pair(*b)) for a, b in ps]
+        key = json.dumps([[str(x) for x in a + b] for a, b in ps])
+        ctx.case(("delta", key), nontrivial=len(ps) >= 2)
+        try:
+            md = Fraction(strict_mod.multi_delta(*pairs))
+            bds = [Fraction(strict_mod.binary_delta(p1, p2)) if p1 <= p2 else None for p1, p2 in pairs]
+        except Exception as e:  # noqa
+            ctx.count("delta:raise:" + type(e).__name__)
+            continue
+        ctx.count("delta:cases")
+        bad = md <= 0 or any(p1 <= p2 and not (a[0] + a[1] * md <= b[0] + b[1] * md) for (p1, p2), (a, b) in zip(pairs, ps))
+        if bad:
+            report(ctx, "strict:bad-delta", key, "multi_delta of %s returns %s, for which a comparison p1 <= p2 of the list fails (or it is not positive)" % (key, md),
+                   {"kind": "delta", "pairs": key})
+        if out is not None:
+            x = sexp.loads(out[idx])
+            m = (Fraction(x[0]), [None if b == "none" else Fraction(b) for b in x[1:]]) if x != "bad-op" else None
+            if m != (md, bds):
+                ndis += 1
+                if ndis <= 3:
+                    ctx.broken("correspondence:c16:delta", "pairs=%s impl=%s model=%s" % (key, (str(md), [str(b) for b in bds]), m and (str(m[0]), [str(b) for b in m[1]])))
 
 
 def run_strict(strict_mod, rows, enc, strict):
@@ -1291,9 +1404,9 @@ def run(ctx):
             ctx.log("Gen.lean regenerated (changed)")
     except Exception as e:  # noqa
         ctx.broken("translate:c16:combine_factoid", "untranslatable: %r" % e)
-    proofs_ok = ctx.lean_props(["Holpy.C16.Props", "Holpy.C16.PropsSimplex"], exes=[EXE])
+    proofs_ok = ctx.lean_props(["Holpy.C16.Props", "Holpy.C16.PropsSimplex", "Holpy.C16.PropsStrict"], exes=[EXE])
     if ctx.tier == "thorough" and proofs_ok:
-        ctx.lean_check_modules(["Holpy.C16.Props", "Holpy.C16.PropsSimplex"])
+        ctx.lean_check_modules(["Holpy.C16.Props", "Holpy.C16.PropsSimplex", "Holpy.C16.PropsStrict"])
     ctx.coverage["trusted_base"] += [
         "translator of omega.combine_real_factoid / combine_dark_factoid (Python AST -> Gen.lean, harness/props/c16.py)",
         "correspondence harness (generators, derivation/witness serialisation, rows -> GreaterEq/LessEq encoding, explanation -> Farkas multipliers)",
@@ -1338,6 +1451,8 @@ def run(ctx):
     from prover import simplex, simplex_strict
     rng = ctx.rng("simplex")
     sys2 = [gen_system(rng) for _ in range(ctx.scale(1500, 10000))]
+    scorp = load_simplex_corpus(ctx)
+    check_simplex(ctx, simplex, [(c["rows"], "corpus") for c in scorp], "corpus", encs=[c["enc"] for c in scorp])
     check_simplex(ctx, simplex, sys2, "random")
     check_simplex_model(ctx, simplex, sys2, "random")
     ctx.log("simplex stream done (%d)" % len(sys2))
@@ -1351,6 +1466,7 @@ def run(ctx):
     rng = ctx.rng("strict")
     sys4 = [gen_system(rng) for _ in range(ctx.scale(800, 5000))]
     check_strict(ctx, simplex_strict, sys4, "random")
+    check_delta(ctx, simplex_strict, ctx.scale(2000, 30000))
     ctx.log("strict simplex stream done (%d)" % len(sys4))
     # 5. proof terms
     rng = ctx.rng("omegahol")
@@ -1362,6 +1478,14 @@ def run(ctx):
     sys6 = [gen_small(rng) for _ in range(ctx.scale(400, 3000))] + [gen_system(rng) for _ in range(ctx.scale(200, 1500))]
     check_simplex_hol(ctx, sys6, "random")
     ctx.log("SimplexHOLWrapper stream done (%d)" % len(sys6))
+
+
+def load_simplex_corpus(ctx):
+    p = os.path.join(ctx.verif, "corpus", "c16_simplex.json")
+    if os.path.exists(p):
+        with open(p) as f:
+            return json.load(f)
+    return []
 
 
 def load_corpus(ctx):
@@ -1383,6 +1507,10 @@ def replay(ctx, rp):
         # the recorded encoding is re-used by re-seeding is not possible; try both encodings of every row
         for _ in range(1 if len(rows) > 6 else 8):
             if r["kind"] == "simplex":
+                if r.get("enc") and len(r["enc"]) == len(rows):
+                    if _ == 0:
+                        check_simplex(ctx, simplex, [(rows, "replay")], "replay", encs=[[bool(e) for e in r["enc"]]])
+                    continue
                 check_simplex(ctx, simplex, [(rows, "replay")], "replay%d" % _)
             elif r["kind"] == "bb":
                 check_bb(ctx, simplex, [(rows, "replay")], "replay%d" % _)
@@ -1421,10 +1549,21 @@ MANIFEST = {
             "rational solution; the stuck row is the Farkas-style explanation), handle_assertion_sat_sound / handle_assertion_unsat_sound, and "
             "end to end simplex_sat_sound / simplex_unsat_sound (Simplex(); add_ineqs(qs); handle_assertion(): no exception => mapping satisfies "
             "every given constraint except the ignored form 0*x ~ b; UNSATException / AssertUpper/LowerException => qs has no rational "
-            "solution), bb_sat_sound_partial (a branch-and-bound node is such a run on a superset of the constraints, so a mapping it returns "
-            "satisfies the original constraints; the search loop is not modelled). All for every fuel: termination of check is NOT proved (the code repairs the last violated basic variable, not "
-            "Bland's rule); the outcome 'fuel' claims nothing. NOT modelled / not proved: branch_and_bound (its verdicts are compared with Z3 "
-            "and brute force, witnesses go through checkWitness), simplex_strict (delta-pairs; Z3 and exact witness evaluation), the "
+            "solution); about the model of branch_and_bound's search loop (queue, all_integer, the variables find_not_int_var picked in the "
+            "real run as an oracle argument, UNSAT/Assert exceptions close a node; tied by its own correspondence stream: result, node "
+            "count, returned mapping): branch_covers_integers, bb_sat_sound (a returned mapping is an integer solution of the original "
+            "constraints), bb_unsat_sound_partial (the loop ending with an empty queue means there is no integer solution - only for runs "
+            "within the node budget in which no check() hits the fuel; other exceptions inside a node, which the bare except would also "
+            "treat as 'infeasible', are not modelled: none occurs, the harness counts them). All for every fuel: termination of check is NOT proved in Lean. The pinned code (last violated basic variable, first "
+            "suitable non-basic one) does cycle: a search over 3.3 million random degenerate systems found inputs on which handle_assertion "
+            "never returns (one with 4 variables and 8 rows); fix C16-5 makes the choice Bland's rule, the model follows it, a confirmed "
+            "time-out of handle_assertion is now a violation (simplex:nontermination), and 1.4 million further random systems showed no cycle "
+            "with the fix; the outcome 'fuel' of the model claims nothing. NOT modelled / not proved: termination of branch_and_bound "
+            "(node budget; 'gave up' is no answer); of simplex_strict only the delta-rationals are modelled (Pair.__le__, binary_delta, "
+            "multi_delta; own correspondence stream): strict_delta_sound (multi_delta is positive and makes every comparison p1 <= p2 of "
+            "pairs true for the rationals x + y*delta) and strict_sat_sound_partial (IF a delta-assignment satisfies all constraints "
+            "lexicographically THEN x + y*multi_delta satisfies them, strict ones strictly; that the strict solver establishes the "
+            "premise is not proved), the strict Simplex class itself (delta-pairs; Z3 and exact witness evaluation), the "
             "proof-producing wrappers (checked by theory.check_proof). In addition every answer of the real Simplex is judged per run: "
             "witnesses go through checkWitness(Q), 'unsatisfiable' answers are certified by checkFarkas whenever Farkas multipliers "
             "can be read from the solver's explanation (internal fields; if not, or if they do not check, the verdict is decided by Z3 - only "
@@ -1441,6 +1580,11 @@ MANIFEST = {
     "design_ref": "DESIGN.md 4/C16",
 }
 FINDINGS = [
+    {"status": "fixed", "key": "simplex:nontermination:[[2,3,-2,0,0],[-1,-1,-1,-4,-1],[-4,-3,-1,4,2],[-3,2,-3,-2,1],[1,0,2,1,0],[1,-2,-1,2,2],[-3,1,0,1,0],[2,0,1,1,0]]/glllllgg",
+     "commit": "fixes/C16-5.patch",
+     "what": "Simplex.check() repaired the LAST violated basic variable with the FIRST suitable non-basic one and cycles: "
+             "handle_assertion() never returns on this 4-variable, 8-row system (176000 pivots in 60 s), nor on a satisfiable 5-variable 13-row "
+             "system; found by a search over 3.3 million random degenerate systems; fixed by Bland's rule (smallest violated basic variable)"},
     {"status": "fixed", "key": "omega:bad-witness:[[2,-1],[-2,1]]", "commit": "0df13d5",
      "what": "solve_matrix([[2,-1],[-2,1]]) = SAT {0: 1}: input rows were not gcd-normalised although solve/one_var_analysis assume it; "
              "also wrong UNSAT ([[-1,1],[2,-2],[1,-1]]), false constant rows ignored ([[1,0],[0,-1]] = SAT), TypeError on constant-only systems"},
